@@ -930,3 +930,46 @@ func doParent(spec Spec, tier string, seed int64, b time.Duration, nworkers int)
 	}
 	return exit
 }
+
+// RacePass runs `go test -race` on one of the harness's free-running packages (unmodified code, real goroutines) and
+// turns a race report or a failing test into a violation on case k. The schedules are sampled by the Go scheduler:
+// this is the declared complement of the controlled exploration, which cannot see accesses between two
+// synchronisation operations. quickCount / thoroughCount are the -count values.
+func RacePass(ctx *Ctx, pkg, what string, quickCount, thoroughCount int, k interface{}) {
+	count := strconv.Itoa(thoroughCount)
+	args := []string{"test", "-race", "-vet=off"}
+	if ctx.Quick() {
+		count = strconv.Itoa(quickCount)
+		args = append(args, "-short")
+	}
+	args = append(args, "-count="+count)
+	if RepoDir != "/repo" {
+		args = append(args, "-modfile="+os.Getenv("VERIF_WORK")+"/go.mod")
+	}
+	cmd := exec.Command("go", append(args, "./"+pkg+"/")...)
+	cmd.Dir = "/verif/harness"
+	cmd.Env = append(os.Environ(), "GOFLAGS=-mod=mod", "GOPROXY=off")
+	out, err := cmd.CombinedOutput()
+	ctx.Eval(1)
+	o := string(out)
+	tail := o
+	if len(tail) > 1500 {
+		tail = tail[len(tail)-1500:]
+	}
+	switch {
+	case strings.Contains(o, "WARNING: DATA RACE"):
+		i := strings.Index(o, "WARNING: DATA RACE")
+		end := i + 1500
+		if end > len(o) {
+			end = len(o)
+		}
+		ctx.Violate("data-race", "race detector report in free-running "+what+": "+o[i:end], k)
+	case err != nil && strings.Contains(o, "--- FAIL"):
+		ctx.Violate("wrong-output.free-running", "free-running "+what+" failed: "+tail, k)
+	case err != nil:
+		panic("race pass could not run: " + tail)
+	default:
+		ctx.Outcome("race-pass-clean/count=" + count)
+		ctx.NontrivialN(1)
+	}
+}
